@@ -99,10 +99,17 @@ func c17EncCheck(c c17Enc) (fs []rep.Finding) {
 
 type c17Text struct {
 	Text string `json:"text"`
+	// Seed: the valid text this one was derived from; it is decoded first, so that any
+	// state a decoder keeps between calls (a cache keyed by part of the text, say) is in place
+	Seed string `json:"seed,omitempty"`
 }
 
 func c17TextCheck(c c17Text) (fs []rep.Finding) {
 	_, _, _, _, valid := refBIP276Decode(c.Text)
+	if c.Seed != "" {
+		_, _ = bscript.DecodeBIP276(c.Seed)
+		_, _ = bscript.ValidateAddress(c.Seed)
+	}
 	d, err := bscript.DecodeBIP276(c.Text)
 	if err == nil && !valid {
 		fs = append(fs, rep.F("decode|accepts-corrupted", "text with a wrong checksum or malformed layout was accepted", "text", trunc(c.Text)))
@@ -121,7 +128,7 @@ func c17TextCheck(c c17Text) (fs []rep.Finding) {
 
 func init() {
 	p := register(&Prop{ID: "C17", Level: "exploration",
-		Rule: "exhaustive: all 65,025 (version,network) pairs in 1..255 x prefixes {bitcoin-script, bitcoin-template} x payload lengths {1,20} (quick) / {0,1,2,20,33,100} (thorough) plus out-of-range fields {0,256,-1}: EncodeBIP276 text byte-identical to the reference layout, decode(encode(x))=x, spec-layout text decodes, ValidateAddress <=> decodes; and for 40 valid encodings (library-made and spec-made) EVERY single-character substitution over the alphabet 0-9a-fA-F:gz and space at every position, every deletion and every insertion: rejected whenever the reference decoder (checksum over the text, hex case-insensitive) rejects. distinct_nontrivial = distinct texts judged",
+		Rule: "exhaustive: all 65,025 (version,network) pairs in 1..255 x prefixes {bitcoin-script, bitcoin-template} x payload lengths {1,20} (quick) / {0,1,2,20,33,100} (thorough) plus out-of-range fields {0,256,-1}: EncodeBIP276 text byte-identical to the reference layout, decode(encode(x))=x, spec-layout text decodes, ValidateAddress <=> decodes; and for 40 valid encodings (library-made and spec-made) EVERY single-character substitution over the alphabet 0-9a-fA-F:gz and space at every position, every deletion and every insertion (the valid text is decoded first, then the corrupted one): rejected whenever the reference decoder (checksum over the text, hex case-insensitive) rejects. distinct_nontrivial = distinct texts judged",
 	})
 	sE := NewSpace(p, "encode", c17EncCheck)
 	sT := NewSpace(p, "text", c17TextCheck)
@@ -165,26 +172,26 @@ func init() {
 			return fs
 		}}).Each(r, func(yield func(c17Text)) {
 			for _, s := range seeds {
-				yield(c17Text{s})
+				yield(c17Text{Text: s})
 				for i := 0; i < len(s); i++ {
 					for _, ch := range alpha {
 						if byte(ch) != s[i] {
-							yield(c17Text{s[:i] + string(ch) + s[i+1:]})
+							yield(c17Text{Text: s[:i] + string(ch) + s[i+1:], Seed: s})
 						}
 					}
-					yield(c17Text{s[:i] + s[i+1:]})
+					yield(c17Text{Text: s[:i] + s[i+1:], Seed: s})
 				}
 				for i := 0; i <= len(s); i++ {
 					for _, ch := range alpha {
-						yield(c17Text{s[:i] + string(ch) + s[i:]})
+						yield(c17Text{Text: s[:i] + string(ch) + s[i:], Seed: s})
 					}
 				}
 			}
 			for _, s := range []string{"", ":", "bitcoin-script:", "bitcoin-script:01", "bitcoin-script:0101", "bitcoin-script:010100000000", ":010112345678", "x:0101" + "00" + "00000000"} {
-				yield(c17Text{s})
+				yield(c17Text{Text: s})
 			}
 		})
 		r.Note("corruption_seeds", len(seeds))
-		r.Sample("text", c17Text{seeds[0]})
+		r.Sample("text", c17Text{Text: seeds[0]})
 	}
 }
